@@ -5,4 +5,5 @@ let table : (string * (z list -> z list)) list = [
   ("c14_builder_pinned", run_c14_builder_pinned);
   ("from_points", run_from_points);
   ("c14_transform", run_c14_transform);
+  ("c19", run_c19);
 ]
